@@ -21,7 +21,7 @@ CLAIMED = {
         text='Theorems (Lean 4, all histories/arguments/user clauses): find() designates exactly the selected candidate '
              '(selected_iff_find); a call is accepted iff that candidate exists and is not a forbid (C01_accept_iff); otherwise exactly '
              'one report, fatal, no action evaluated, no count changed (C01_reject). Tie to /repo: hand-written executable model + '
-             'correspondence check (exhaustive small scopes + seeded random scripts run on the real library and on the model). Second tie (translator): trompeloeil::find, call_matcher::run_actions, can_be_called regenerated from /repo\'s current source by tools/cxx2lean.py on every run and proved equal to the model definitions (find_eq/find_tie, run_actions_order + run_actions_sem: the state after interpreting the translated statement trace is World.runActions). Re-entrant side effects: Model/Nested.lean (callN), state = the same calls in sequence (callN_world_is_run). Every documented spelling of REQUIRE/ALLOW/FORBID_CALL (C++14, variadic _V, named, unnamed) is run by harness/spelling. Also regenerated and tied (Tie/NoMatch.lean): call_matcher::matches / match_conditions (verdict = parameters and all WITH predicates; exactly the predicates up to and including the first failing one are evaluated, none if a parameter rejects: match_conditions_tie, matches_tie), the member report_mismatch (sets `reported`, names the first failing WITH, evaluates no predicate beyond it: report_mismatch_member_eq/_tie), the free report_mismatch (lists every matching saturated expectation or else a Tried explanation of every active one: report_mismatch_free_eq/_tie), hook_last (newest first).',
+             'correspondence check (exhaustive small scopes + seeded random scripts run on the real library and on the model). Second tie (translator): trompeloeil::find, call_matcher::run_actions, can_be_called regenerated from /repo\'s current source by tools/cxx2lean.py on every run and proved equal to the model definitions (find_eq/find_tie, run_actions_order + run_actions_sem: the state after interpreting the translated statement trace is World.runActions; mock_func_sem: the whole call path - the translated mock_func read with the translated find, report_mismatch and run_actions - ends in the world of World.callFn, for every world, object, function and argument list). Re-entrant side effects: Model/Nested.lean (callN), state = the same calls in sequence (callN_world_is_run). Every documented spelling of REQUIRE/ALLOW/FORBID_CALL (C++14, variadic _V, named, unnamed) is run by harness/spelling. Also regenerated and tied (Tie/NoMatch.lean): call_matcher::matches / match_conditions (verdict = parameters and all WITH predicates; exactly the predicates up to and including the first failing one are evaluated, none if a parameter rejects: match_conditions_tie, matches_tie), the member report_mismatch (sets `reported`, names the first failing WITH, evaluates no predicate beyond it: report_mismatch_member_eq/_tie), the free report_mismatch (lists every matching saturated expectation or else a Tried explanation of every active one: report_mismatch_free_eq/_tie), hook_last (newest first).',
         ref='DESIGN.md §4 C01', technique='Lean 4 proof (refinement of the find loop + case analysis of mock_func) + model/implementation correspondence'),
     'C05': dict(
         text='Theorems: sequence cost = number of pending satisfied predecessors (handleCost_eq_some_iff), eligibility characterisation '
